@@ -723,7 +723,7 @@ impl<'a, 'ast> Visit<'ast> for Rewriter<'a> {
             let f = norm(&self.sf.slice(self.r(c.func.span())).to_string());
             if self.cfg.state_calls.iter().any(|p| f == *p || f.ends_with(&format!("::{}", p))) {
                 let at = self.r(c.paren_token.span.close()).0;
-                let sep = if c.args.is_empty() { "" } else { ", " };
+                let sep = if c.args.is_empty() || c.args.trailing_punct() { "" } else { ", " };
                 self.edits.insert(at, format!("{}{}", sep, self.cfg.state_arg), "R-state");
                 self.note("R-state", c.span());
             }
@@ -735,7 +735,7 @@ impl<'a, 'ast> Visit<'ast> for Rewriter<'a> {
         let name = m.method.to_string();
         if !self.cfg.state_arg.is_empty() && self.cfg.state_methods.contains(&name) {
             let at = self.r(m.paren_token.span.close()).0;
-            let sep = if m.args.is_empty() { "" } else { ", " };
+            let sep = if m.args.is_empty() || m.args.trailing_punct() { "" } else { ", " };
             self.edits.insert(at, format!("{}{}", sep, self.cfg.state_arg), "R-state");
             self.note("R-state", m.span());
         }
